@@ -133,6 +133,28 @@ def run_chunk(arg):
                     elif res["sample"] is None and s and len(rules) > 1:
                         res["sample"] = dict(rules=[rule_text(i, m, c) + " // ns=" + ns for i, (m, c, ns) in enumerate(rules)],
                                              imports=imports, flags=flags, buffer=buf.decode(), script=s, messages=got, rc=o["rc"])
+        if target == "s0":
+            # flag HISTORY on the reused scanner: every ordered pair of flag settings (an Euler circuit over 6 values incl. 0 and fast-mode-only, which both mean
+            # "report everything"); each scan must deliver what a fresh scanner with the same flags delivers
+            vals = [0, MATCHING, NOT_MATCHING, MATCHING | NOT_MATCHING, 1, 1 | MATCHING]
+            seq, used = [0], set()
+            def euler(v):
+                for u in vals:
+                    if (v, u) not in used:
+                        used.add((v, u)); euler(u); seq.append(v)
+            seq = []; euler(0); seq.reverse(); seq.append(0)      # closes the circuit: 36 ordered pairs
+            buf = BUFS[len(rules) % len(BUFS)]
+            outs = w.batch(["scan target=s0 via=mem ml=0 flags=%d data=%s" % (f, yv.hx(buf)) for f in seq])
+            prev = None
+            for f, o in zip(seq, outs):
+                exp, erc = ref_cb(rules, imports, f, buf, {})
+                got = [tuple(m[:2]) for m in o["t"]]
+                res["evals"] += 1
+                if got != exp or o["rc"] != erc:
+                    res["viol"].append(("C11:flag-history:flags=%d-after-%s" % (f, prev), dict(rules=[rule_text(i, m, c) + " // ns=" + ns for i, (m, c, ns) in enumerate(rules)],
+                                                                                          imports=imports, flags=f, previous_flags=prev, buffer=buf.decode(), expected=[exp, erc], observed=[got, o["rc"]])))
+                    break
+                prev = f
     res["nontrivial"] = list(res["nontrivial"])
     return res
 
